@@ -18,6 +18,8 @@ TRUSTED = [
     "pandas groupby (drops NULL keys, groups by ==, hands np.int64/np.bool_/float/Timestamp/str keys to the writer), "
     "writer.iter_dataframe (row-group split; C01), reading the payload columns of one file (C01)",
     "Python glue: generators, canonical forms of values (harness/partlib.py), metadata block -> model kind",
+    "extraction and driver are cross-checked on every run: ~30 of the commands issued are re-evaluated by the Coq kernel "
+    "(vm_compute) and must give the output the extracted program printed (obligations extract_agrees_*); thorough tier: coqchk -o",
     "model domain of int(text): ASCII white space, sign, digits with single underscores (non-ASCII digits not modelled)",
 ]
 
@@ -82,7 +84,9 @@ def run(ctx):
     warnings.filterwarnings("ignore", message="no explicit representation of timezones")
     C.coq_lib()
     ctx.trusted = TRUSTED
-    ctx.coq_file(os.path.join(C.COQ, "props", "C08.v"))
+    ok, _ = ctx.coq_file(os.path.join(C.COQ, "props", "C08.v"))
+    if ok and not ctx.quick():
+        L.coqchk_props(ctx, "C08")
     bad = C.hygiene()
     ctx.obligation("hygiene: no Admitted/Axiom/Parameter/... in coq/", not bad, "; ".join(bad))
     C.use_shadow()
@@ -126,7 +130,10 @@ def _run(ctx, pq):
         cmds.append(("path_string", hive, L.model_value(v)))
         impl = util.path_string(v) if hive else "%s" % v
         meta.append(({"corr": "path_string", "hive": hive, "value": L.canon(v), "pytype": type(v).__name__}, impl, k))
-    for (case, impl, k), mo in zip(meta, pq.batch(cmds)):
+    samples = []           # (command, output) pairs re-evaluated by the Coq kernel at the end
+    outs_a = pq.batch(cmds)
+    L.sample_pq(samples, cmds, outs_a, rng, 4)
+    for (case, impl, k), mo in zip(meta, outs_a):
         ctx.case(case)
         ctx.count("A.kind", k)
         ctx.correspondence("show ~ util.path_string / '%s' % val", case, bytes(mo).decode("utf-8", "replace"), impl)
@@ -169,7 +176,9 @@ def _run(ctx, pq):
         cmds.append(("val_from_meta", kind, L.enc(x), [e for e in table if e[0] == L.enc(x)]))
         impl = _impl_call(util.val_from_meta, x, m)
         meta.append(({"corr": "val_from_meta", "kind": kind, "text": x}, impl))
-    for (case, impl), mo in zip(meta, pq.batch(cmds)):
+    outs_b = pq.batch(cmds)
+    L.sample_pq(samples, cmds, outs_b, rng, 5)
+    for (case, impl), mo in zip(meta, outs_b):
         ctx.case(case)
         ctx.count("B.kind", str(case["kind"]))
         model = L.res_of_model(mo, L.from_model)
@@ -186,7 +195,9 @@ def _run(ctx, pq):
         else:
             xs.append(rng.choice(ADVERSARIAL))
     table = {e[0]: e for e in L.oracle_table(xs)}
-    outs = pq.batch([("val_to_num", L.enc(x), [table[L.enc(x)]]) for x in xs])
+    cmds_c = [("val_to_num", L.enc(x), [table[L.enc(x)]]) for x in xs]
+    outs = pq.batch(cmds_c)
+    L.sample_pq(samples, cmds_c, outs, rng, 4)
     for x, mo in zip(xs, outs):
         case = {"corr": "val_to_num", "text": x}
         ctx.case(case)
@@ -245,7 +256,10 @@ def _run(ctx, pq):
                 impl = ["raises", "ValueError"]
             except Exception as e:      # noqa
                 impl = ["raises", "Error"]
-            mo = pq.call("path_to_cats", hive, pmx, [L.enc(d) for d in dirs], [[L.enc(x) for x in pp] for pp in parts], table)
+            cmd_d = ("path_to_cats", hive, pmx, [L.enc(d) for d in dirs], [[L.enc(x) for x in pp] for pp in parts], table)
+            mo = pq.call(*cmd_d)
+            if i % 40 == 0:
+                L.sample_pq(samples, [cmd_d], [mo], rng, 1, limit=3000)
             model = L.res_of_model(mo, lambda c: [[bytes(k).decode(), sorted(json.dumps(L.from_model(v)) for v in vs)] for k, vs in c])
             case = {"corr": "path_to_cats", "hive": hive, "dirs": dirs, "pm": {k: v["numpy_type"] + "/" + v["pandas_type"] for k, v in pm.items()}}
             ctx.case(case)
@@ -264,7 +278,10 @@ def _run(ctx, pq):
             impl = ["raises", "ValueError"]
         except Exception as e:      # noqa
             impl = ["raises", "Error"]
-        mo = pq.call("paths_to_cats", pmx, [L.enc(p) for p in paths], [L.enc(d) for d in impl_dirs], table)
+        cmd_d = ("paths_to_cats", pmx, [L.enc(p) for p in paths], [L.enc(d) for d in impl_dirs], table)
+        mo = pq.call(*cmd_d)
+        if i % 40 == 1:
+            L.sample_pq(samples, [cmd_d], [mo], rng, 1, limit=3000)
         model = L.res_of_model(mo, lambda r: [bytes(r[0]).decode(), [[bytes(k).decode(), sorted(json.dumps(L.from_model(v)) for v in vs)] for k, vs in r[1]]])
         case = {"corr": "paths_to_cats", "paths": paths, "dirs_order": impl_dirs, "pm": {k: v["numpy_type"] + "/" + v["pandas_type"] for k, v in pm.items()}}
         ctx.case(case)
@@ -282,6 +299,17 @@ def _run(ctx, pq):
         for kd in case["dist"]["kinds"]:
             ctx.count("E.partition_kind", kd)
         ctx.count("E.rows", "0" if case["n"] == 0 else ("1-5" if case["n"] <= 5 else "6+"))
+    # ---------------------------------------------------------------- extraction vs kernel on a sample of the commands above
+    fixed = [("write_model", True, [b"k", b"n"],
+              [[[[[[2, b"a"]], [[0, 5]]], 0], [[[[2, b"b"]], []], 1]], [[[[[2, b"a"]], [[0, -7]]], 2], [[[[2, b"a"]], [[0, 5]]], 3]]]),
+             ("write_model", False, [b"k"], [[[[[[2, b"a"]]], 0], [[[[1, 1]]], 1]]]),
+             ("read_model", [[b"k", [2]], [b"n", [0, True, 64]]],
+              [[b"k=a/n=5/part.0.parquet", [0]], [b"k=a/n=-7/part.1.parquet", [2]], [b"k=a/n=5/part.1.parquet", [3]]],
+              [b"k=a/n=-7", b"k=a/n=5"], L.oracle_table(["k", "a", "n", "5", "-7"])),
+             ("read_model", [], [[b"a/part.0.parquet", [0]], [b"2/part.0.parquet", [1]]], [b"2", b"a"], L.oracle_table(["a", "2"]))]
+    for cmd in fixed:      # the dataset-level commands run inside the workers: re-evaluate fixed small instances here
+        samples.append((cmd, pq.call(*cmd)))
+    L.extraction_agrees(ctx, samples, "C08")
 
 
 # --------------------------------------------------------------------------------------------------
